@@ -697,7 +697,19 @@ namespace foonathan
 
                 virtual bool is_composable() const noexcept = 0;
 
+                /// \returns Whether or not both refer to the same allocator,
+                /// i.e. whether memory obtained through one may be released through the other.
+                bool refers_to_same(const base_allocator& other) const noexcept
+                {
+                    return kind() == other.kind() && equal_to(other);
+                }
+
             protected:
+                // identifies the type of the referenced allocator (without RTTI)
+                virtual const void* kind() const noexcept = 0;
+                // \requires other has the same kind()
+                virtual bool equal_to(const base_allocator& other) const noexcept = 0;
+
                 enum class query
                 {
                     node_size,
@@ -882,6 +894,40 @@ namespace foonathan
                     else if (q == query::array_size)
                         return traits::max_array_size(alloc);
                     return traits::max_alignment(alloc);
+                }
+
+                const void* kind() const noexcept override
+                {
+                    static const char tag = 0; // one per instantiation
+                    return &tag;
+                }
+
+                bool equal_to(const base_allocator& other) const noexcept override
+                {
+                    return same(typename traits::is_stateful{}, is_shared_allocator<RawAllocator>{},
+                                get(), static_cast<const basic_allocator&>(other).get());
+                }
+
+                // shared: the allocators know themselves
+                template <class Stateful>
+                static bool same(Stateful, std::true_type, const typename traits::allocator_type& a,
+                                 const typename traits::allocator_type& b) noexcept
+                {
+                    return a == b;
+                }
+                // stateful: the same object
+                static bool same(std::true_type, std::false_type,
+                                 const typename traits::allocator_type& a,
+                                 const typename traits::allocator_type& b) noexcept
+                {
+                    return &a == &b;
+                }
+                // stateless: all objects are the same
+                static bool same(std::false_type, std::false_type,
+                                 const typename traits::allocator_type&,
+                                 const typename traits::allocator_type&) noexcept
+                {
+                    return true;
                 }
             };
 
